@@ -1,6 +1,7 @@
 """SymFS: an in-memory POSIX-like tree whose binary files hold header bytes and symbolic payload
 words at byte-exact positions.  Every mutating operation is appended to an audit log and passes
 through a fault injector (operation number k raises OSError iff k == K_fault, K_fault symbolic)."""
+import z3
 import io
 import os as _os
 import posixpath
@@ -660,6 +661,27 @@ class BinHandle:
         self.pos = pos + n
         self._cut(pos, 'readline: the file ends inside the line')
         return out[:n]
+
+    def peek(self, n=0):
+        """BufferedReader.peek: bytes from the current position, the position stays.  How many is the buffer's business ("the
+        number of bytes returned may be less or more than requested", at least one unless the file ends here): both extremes are
+        explored - a single byte (the position sits one byte before the end of the buffer's window) and a buffer's worth."""
+        pos = self._cpos()
+        data = self.read(max(int(n), 64))
+        self.pos = pos
+        if len(data) <= 1:
+            return data
+        ctx = core.cur()
+        k = ctx.data['npeek'] = ctx.data.get('npeek', 0) + 1
+        if k > 3:
+            return data          # the first three calls of a path are free to come back short
+        v = z3.Int('peek_short_%d' % k)
+        ctx.assume(v >= 0)
+        ctx.assume(v <= 1)
+        if ctx.realise_int(v, limit=4) == 1:
+            ctx.data['short_peek'] = True
+            return bytes(data[:1])
+        return data
 
     def read(self, n=-1):
         pos = self._cpos()
